@@ -2,6 +2,7 @@
 client-boundary emit log."""
 
 import os
+import shutil
 import struct
 
 from core import VERIF, run_retry, HarnessError
@@ -152,3 +153,40 @@ def compare_stream(evs, recs):
             if not (x[3] <= g.clock <= x[4]):
                 return "mark event %d clock %d outside call window [%d,%d]" % (i, g.clock, x[3], x[4])
     return None
+
+
+def align_script(drv, script_text, multiple, scratch, before="ev OHe", inline=False):
+    """Pads the (single-thread) script with user events so that its stream.obs is an
+    exact multiple of `multiple` bytes: the script is run once without
+    OVNI_TMPDIR to measure the stream, then `ev OB.` events of the missing
+    size are inserted before the first line starting with `before` (or before
+    the last flush).  Returns (script, size) or None if it cannot be measured."""
+    import tempfile
+    wd = tempfile.mkdtemp(prefix="align-", dir=scratch)
+    try:
+        r = run_script(drv, script_text, wd, timeout=120, inline=inline)
+        if r.rc != 0 or "RTDRV-DONE" not in r.out:
+            return None
+        sds = obs.find_streams(os.path.join(wd, "trace"))
+        if len(sds) != 1:
+            return None
+        size = os.path.getsize(os.path.join(sds[0], "stream.obs"))
+    finally:
+        shutil.rmtree(wd, ignore_errors=True)
+    d = (-size) % multiple
+    if d == 0:
+        return script_text, size
+    if d < 12:
+        d += multiple
+    pad = []
+    while d > 28:
+        pad.append("ev OB. now -"); d -= 12
+    if d < 12:      # cannot happen (d was >= 12 and we stop above 28 - 12)
+        return None
+    pad.append("ev OB. now %s" % ("ab" * (d - 12) if d > 12 else "-"))
+    lines = script_text.rstrip("\n").split("\n")
+    idx = next((k for k, l in enumerate(lines) if l.startswith(before)), None)
+    if idx is None:
+        idx = max(k for k, l in enumerate(lines) if l.strip() == "flush")
+    lines[idx:idx] = pad
+    return "\n".join(lines) + "\n", size + sum(12 + (len(p.split()[-1]) // 2 if p.split()[-1] != "-" else 0) for p in pad)
